@@ -138,10 +138,9 @@ class dhcp(packet_base):
         self.magic = self.MAGIC
         self._raw_options = b''
 
+        self.options = util.DirtyDict()
         if raw is not None:
             self.parse(raw)
-        else:
-            self.options = util.DirtyDict()
 
         self._init(kw)
 
@@ -200,6 +199,7 @@ class dhcp(packet_base):
 
         self.hdr_len = dlen
         self.parsed = True
+        self._raw_options = raw[240:]
 
         if self.hlen > 16:
             self.warn('(dhcp parse) DHCP hlen %u too long' % (self.hlen),)
